@@ -65,10 +65,8 @@ from slimta import logging
 from slimta.http.wsgi import WsgiServer
 from slimta.envelope import Envelope
 from slimta.smtp.reply import Reply
-from slimta.queue import QueueError
-from slimta.relay import RelayError
 from slimta.util.ptrlookup import PtrLookup
-from . import EdgeServer
+from . import EdgeServer, get_failure_reply
 
 __all__ = ['WsgiResponse', 'WsgiEdge', 'WsgiValidators']
 
@@ -262,14 +260,9 @@ class WsgiEdge(EdgeServer, WsgiServer):
 
     def _enqueue_envelope(self, env):
         results = self.handoff(env)
-        if isinstance(results[0][1], QueueError):
-            default_reply = Reply('451', '4.3.0 Error queuing message')
-            reply = getattr(results[0][1], 'reply', default_reply)
-            raise _build_http_response(reply)
-        elif isinstance(results[0][1], RelayError):
-            relay_reply = results[0][1].reply
-            raise _build_http_response(relay_reply)
-        reply = Reply('250', '2.6.0 Message accepted for delivery')
+        reply = get_failure_reply(results)
+        if reply is None:
+            reply = Reply('250', '2.6.0 Message accepted for delivery')
         raise _build_http_response(reply)
 
 
